@@ -136,7 +136,9 @@ func (gs GenesisState) Validate() error {
 		}
 
 		for i, consensusState := range cc.ConsensusStates {
-			if consensusState.Height.IsZero() {
+			// an EVM chain has a block 0 and a BSC or ETH client can be anchored at it (ClientState.Validate and
+			// Initialize accept it): the export of such a client must pass; other client types have no height zero
+			if consensusState.Height.IsZero() && clientType != exported.ETH && clientType != exported.BSC {
 				return fmt.Errorf("consensus state height cannot be zero")
 			}
 
